@@ -38,8 +38,8 @@ PLANS = {
     "C03": P("exploration", SEM, 15000, 700, SEM + ["mid", "host"], 45000, 1300),
     "C04": P("exploration", SEM, 30000, 700, SEM + ["mid", "host"], 90000, 1400),
     "C05": P("exploration", SEM, 20000, 600, SEM + ["mid", "host"], 60000, 1100),
-    "C06": P("exploration", SEM, 20000, 600, SEM + ["mid", "host"], 60000, 1200),
-    "C07": P("exploration", SEM, 36000, 600, SEM + ["mid", "host"], 100000, 1200),
+    "C06": P("exploration", SEM, 12000, 600, SEM + ["mid", "host"], 60000, 1200),
+    "C07": P("exploration", SEM, 15000, 600, SEM + ["mid", "host"], 100000, 1200),
     "C08": P("exploration", SEM, 60000, 900, SEM + ["host", "host-nosse"], 180000, 1700),
     "C09": P("exploration", SEM, 32000, 500, SEM + ["mid", "host"], 100000, 900),
     "C10": P("exploration", WRAP, 1500, 400, WRAP, 8000, 800),
